@@ -12,6 +12,15 @@ add("C01", "pbt", "property-based testing (proptest): independent-decoder differ
     "Trusts the harness's reference reader (refmodel) as a correct reading of erl_ext_dist; containers > 2^32-1 elements cannot be materialised.",
     "DESIGN.md §7 C01")
 
+add("C11", "pbt", "exhaustive all-pairs / all-triples law checking over a corner-case universe + property-based testing (proptest) over random universes of neighbouring terms",
+    "Every pair and triple of a ~700-term corner universe (all numeric representations around 2^53/2^63/2^64, equal-length bigints, +-0.0, binaries vs bit-strings, proper vs improper lists, funs differing in arity, identifiers with/without raw bytes, compounds) is checked against the four order laws, eq=>hash under two hashers, BorrowedTerm agreement and derived sort/BTreeMap/HashMap behaviour; random universes of tweaked neighbours extend this. Exhaustive only for the enumerated universe.",
+    "Well-formed terms only (finite floats, minimal bigint digits, zero padding bits).",
+    "DESIGN.md §7 C11")
+add("C12", "pbt", "differential testing against an independent exact implementation of Erlang's term order: exhaustive all-pairs over a corner universe of values x representations + proptest neighbour pairs",
+    "Every pair of the corner value universe in every library representation, and random neighbour pairs, is compared by OwnedTerm::cmp and BorrowedTerm::cmp and by an independent arbitrary-precision implementation of the OTP term order; disagreement is shrunk to a minimal pair.",
+    "Trusts refmodel::order as a reading of the OTP manual; order among distinct identifiers/funs not prescribed; int-vs-float map keys and arity-only fun differences accepted either way.",
+    "DESIGN.md §7 C12")
+
 hooks_commits = []
 try:
     out = subprocess.run(["git", "-C", "/repo", "log", "--format=%H %s"], capture_output=True, text=True).stdout
